@@ -163,6 +163,10 @@ class ShiftedServer(QueuedResource):
             new_capacity,
         )
 
+        if new_capacity > old_capacity:
+            # Workers came on shift: pull waiting work (nothing else would)
+            self.capacity_changed()
+
         # Schedule the next shift change (self-perpetuating)
         next_event = self._schedule_next_shift()
         return [next_event] if next_event else []
